@@ -314,13 +314,118 @@ theorem checkTcs_rules (res : String) (a : List Val) (at' : List (String × Val)
 
 /-! ## the state invariant -/
 
-def Inv (s : St) : Prop := ∀ t ∈ s.tcs, TcInv t s.live
+/-- what one step may do to a controller: same rule; unless it evicts, no cell disappears -/
+def Keeps (t t' : Tc) : Prop :=
+  t'.rule = t.rule ∧ (t'.ev = false → t.ev = false ∧ ∀ w, (t.cache.lookup w).isSome = true → (t'.cache.lookup w).isSome = true)
+
+theorem keeps_refl (t : Tc) : Keeps t t := ⟨rfl, fun h => ⟨h, fun _ hw => hw⟩⟩
+
+theorem keeps_trans {t t' t'' : Tc} (h1 : Keeps t t') (h2 : Keeps t' t'') : Keeps t t'' :=
+  ⟨h2.1.trans h1.1, fun h => ⟨(h1.2 (h2.2 h).1).1, fun w hw => (h2.2 h).2 w ((h1.2 (h2.2 h).1).2 w hw)⟩⟩
+
+theorem lookup_addIfAbsent_keeps (cap : Nat) (c : Cache) (v w : Val) (h : (addIfAbsent cap c v).2.2 = false)
+    (hw : (c.lookup w).isSome = true) : ((addIfAbsent cap c v).1.lookup w).isSome = true := by
+  unfold addIfAbsent at h ⊢
+  cases hl : c.lookup v with
+  | some n =>
+    simp only [hl, lookup_touch]
+    split
+    · rfl
+    · exact hw
+  | none =>
+    simp only [hl] at h ⊢
+    split at h
+    · simp at h
+    · rename_i hcap
+      simp only [hcap, if_false, List.lookup_cons]
+      split
+      · rfl
+      · exact hw
+
+theorem keeps_touchFor (t : Tc) (res : String) (a : List Val) (at' : List (String × Val)) :
+    Keeps t (t.touchFor res a at') := by
+  refine ⟨touchFor_rule .., fun h => ⟨touchFor_ev t res a at' h, fun w hw => ?_⟩⟩
+  unfold Tc.touchFor at h ⊢; dsimp only at h ⊢
+  split
+  · exact hw
+  · rename_i hv
+    simp only [hv, if_false, Bool.or_eq_false_iff] at h
+    exact lookup_addIfAbsent_keeps _ _ _ _ h.2 hw
+
+theorem keeps_bump (t : Tc) (res : String) (a : List Val) (at' : List (String × Val)) (d : Int) :
+    Keeps t (t.bump res a at' d) := by
+  refine ⟨bump_rule .., fun h => ⟨by rwa [bump_ev] at h, fun w hw => ?_⟩⟩
+  unfold Tc.bump; dsimp only
+  split
+  · exact hw
+  · exact lookup_getAdd_isSome _ _ _ _ hw
+
+/-- a parked entry whose verdict is "pass" has a cell for its value in every controller that selects one -/
+def PendOk (p : Pend) (tcs : List Tc) : Prop :=
+  p.verdict = Res.pass → ∀ t ∈ tcs, t.ev = false → t.rule.sel p.res p.args p.atts ≠ Val.nil →
+    (t.cache.lookup (t.rule.sel p.res p.args p.atts)).isSome = true
+
+theorem pendOk_keeps (p : Pend) (tcs tcs' : List Tc) (h : PendOk p tcs)
+    (hk : ∀ t' ∈ tcs', ∃ t ∈ tcs, Keeps t t') : PendOk p tcs' := by
+  intro hv t' ht' hev hs
+  obtain ⟨t, ht, hr, hk⟩ := hk t' ht'
+  rw [hr] at hs ⊢
+  exact (hk hev).2 _ (h hv t ht (hk hev).1 hs)
+
+def Inv (s : St) : Prop := (∀ t ∈ s.tcs, TcInv t s.live) ∧ (∀ p ∈ s.pend, PendOk p s.tcs)
 
 theorem inv_init (rules : List Rule) : Inv (init rules) := by
+  refine ⟨?_, by simp [init, load]⟩
   intro t ht hev v hv
   simp only [init, load, List.mem_map] at ht
   obtain ⟨r, _, rfl⟩ := ht
   simp [cellOf, liveOf, init, load]
+
+theorem checkTcs_keeps (res : String) (a : List Val) (at' : List (String × Val)) (tcs : List Tc) :
+    ∀ t' ∈ (checkTcs res a at' tcs).1, ∃ t ∈ tcs, Keeps t t' := by
+  intro t' ht'
+  obtain ⟨t, hm, ht⟩ := checkTcs_mem res a at' tcs t' ht'
+  rcases ht with rfl | rfl
+  · exact ⟨_, hm, keeps_refl _⟩
+  · exact ⟨_, hm, keeps_touchFor ..⟩
+
+theorem checkTcs_tcInv (res : String) (a : List Val) (at' : List (String × Val)) (tcs : List Tc) (L : List Live)
+    (h : ∀ t ∈ tcs, TcInv t L) : ∀ t' ∈ (checkTcs res a at' tcs).1, TcInv t' L := by
+  intro t' ht'
+  obtain ⟨t, hm, ht⟩ := checkTcs_mem res a at' tcs t' ht'
+  rcases ht with rfl | rfl
+  · exact h _ hm
+  · exact touchFor_inv _ _ _ _ _ (h _ hm)
+
+/-- after a passing check every controller that selects a value has a cell for it -/
+theorem checkTcs_present (res : String) (a : List Val) (at' : List (String × Val)) (tcs : List Tc)
+    (hb : (checkTcs res a at' tcs).2 = false) :
+    ∀ t' ∈ (checkTcs res a at' tcs).1, t'.ev = false → t'.rule.sel res a at' ≠ Val.nil →
+      (t'.cache.lookup (t'.rule.sel res a at')).isSome = true := by
+  intro t' ht' hev hs
+  simp only [checkTcs_pass res a at' tcs hb, List.mem_map] at ht'
+  obtain ⟨t, _, rfl⟩ := ht'
+  rw [touchFor_rule] at hs ⊢
+  exact touchFor_present t res a at' hev hs
+
+theorem inv_check (s : St) (id res : String) (a : List Val) (at' : List (String × Val)) (h : Inv s) :
+    Inv (check s id res a at') := by
+  unfold check
+  split
+  · refine ⟨h.1, ?_⟩
+    intro p hp
+    rcases List.mem_cons.mp hp with rfl | hp
+    · intro hv; cases hv
+    · exact h.2 p hp
+  · dsimp only
+    refine ⟨checkTcs_tcInv res a at' s.tcs s.live h.1, ?_⟩
+    intro p hp
+    rcases List.mem_cons.mp hp with rfl | hp
+    · intro hv t' ht' hev hs
+      by_cases hb : (checkTcs res a at' s.tcs).2 = true
+      · simp [hb] at hv
+      · exact checkTcs_present res a at' s.tcs (by simpa using hb) t' ht' hev hs
+    · exact pendOk_keeps p _ _ (h.2 p hp) (checkTcs_keeps res a at' s.tcs)
 
 theorem inv_entry (s : St) (id res : String) (a : List Val) (at' : List (String × Val)) (h : Inv s) :
     Inv (entry s id res a at').1 := by
@@ -330,32 +435,65 @@ theorem inv_entry (s : St) (id res : String) (a : List Val) (at' : List (String 
   · dsimp only
     split
     · -- blocked by the hotspot slot: some caches were touched, nothing was counted
-      intro t' ht'
-      obtain ⟨t, hm, ht⟩ := checkTcs_mem res a at' s.tcs t' ht'
-      rcases ht with rfl | rfl
-      · exact h _ hm
-      · exact touchFor_inv _ _ _ _ _ (h _ hm)
+      exact ⟨checkTcs_tcInv res a at' s.tcs s.live h.1,
+        fun p hp => pendOk_keeps p _ _ (h.2 p hp) (checkTcs_keeps res a at' s.tcs)⟩
     · rename_i hb
       have hb' : (checkTcs res a at' s.tcs).2 = false := by simpa using hb
-      intro t' ht'
-      simp only [checkTcs_pass res a at' s.tcs hb', List.map_map, List.mem_map, Function.comp] at ht'
-      obtain ⟨t, hm, rfl⟩ := ht'
-      apply bump_pass
-      · exact touchFor_inv _ _ _ _ _ (h _ hm)
-      · intro hev hs
-        have : (t.touchFor res a at').sel res a at' = t.sel res a at' := by simp [Tc.sel]
-        rw [this] at hs ⊢
-        exact touchFor_present t res a at' hev hs
+      refine ⟨?_, ?_⟩
+      · intro t' ht'
+        simp only [List.mem_map] at ht'
+        obtain ⟨t, hm, rfl⟩ := ht'
+        apply bump_pass
+        · exact checkTcs_tcInv res a at' s.tcs s.live h.1 t hm
+        · intro hev hs
+          exact checkTcs_present res a at' s.tcs hb' t hm hev hs
+      · intro p hp
+        apply pendOk_keeps p _ _ (h.2 p hp)
+        intro t' ht'
+        simp only [List.mem_map] at ht'
+        obtain ⟨t1, hm, rfl⟩ := ht'
+        obtain ⟨t, ht, hk⟩ := checkTcs_keeps res a at' s.tcs t1 hm
+        exact ⟨t, ht, keeps_trans hk (keeps_bump ..)⟩
+
+theorem inv_commit (s : St) (id : String) (h : Inv s) : Inv (commit s id).1 := by
+  unfold commit
+  split
+  · exact h
+  · rename_i p hf
+    have hpm := find_mem _ _ _ hf
+    split
+    · rename_i hv
+      refine ⟨?_, ?_⟩
+      · intro t' ht'
+        simp only [List.mem_map] at ht'
+        obtain ⟨t, hm, rfl⟩ := ht'
+        apply bump_pass _ _ _ _ _ _ (h.1 t hm)
+        intro hev hs
+        exact h.2 p hpm hv t hm hev hs
+      · intro q hq
+        apply pendOk_keeps q _ _ (h.2 q (List.mem_of_mem_eraseP hq))
+        intro t' ht'
+        simp only [List.mem_map] at ht'
+        obtain ⟨t, hm, rfl⟩ := ht'
+        exact ⟨t, hm, keeps_bump ..⟩
+    · exact ⟨h.1, fun q hq => h.2 q (List.mem_of_mem_eraseP hq)⟩
 
 theorem inv_exit (s : St) (id : String) (h : Inv s) : Inv (exit s id) := by
   unfold exit
   split
   · exact h
   · rename_i e hf
-    intro t' ht'
-    simp only [List.mem_map] at ht'
-    obtain ⟨t, hm, rfl⟩ := ht'
-    exact bump_exit t s.live _ e (h _ hm) hf
+    refine ⟨?_, ?_⟩
+    · intro t' ht'
+      simp only [List.mem_map] at ht'
+      obtain ⟨t, hm, rfl⟩ := ht'
+      exact bump_exit t s.live _ e (h.1 _ hm) hf
+    · intro q hq
+      apply pendOk_keeps q _ _ (h.2 q hq)
+      intro t' ht'
+      simp only [List.mem_map] at ht'
+      obtain ⟨t, hm, rfl⟩ := ht'
+      exact ⟨t, hm, keeps_bump ..⟩
 
 theorem inv_step (s : St) (op : Op) (h : Inv s) : Inv (step s op) := by
   cases op with
@@ -365,6 +503,11 @@ theorem inv_step (s : St) (op : Op) (h : Inv s) : Inv (step s op) := by
     · exact inv_entry s id res a at' h
   | exit id => exact inv_exit s id h
   | flowBlock res => exact h
+  | check id res a at' =>
+    simp only [step]; split
+    · exact h
+    · exact inv_check s id res a at' h
+  | commit id => exact inv_commit s id h
 
 theorem inv_run (s : St) (ops : List Op) (h : Inv s) : Inv (run s ops) := by
   induction ops generalizing s with
